@@ -40,17 +40,6 @@ private theorem common_ne_nil (m : Text) (h : m ∈ stdioMethods) : m.isEmpty = 
   simp [stdioMethods] at h
   rcases h with h | h | h | h | h | h | h | h <;> simp [h]
 
-private theorem resolve_ok (c : SCfg) (st : St) (ref : Ref) (m : Text) (hs : sessionOk c st ref m) :
-    ∃ st1 sess, resolve c.sess st (m == t!"initialize") ref = .ok (st1, sess) := by
-  unfold resolve
-  cases hm : c.sess.mode with
-  | stateless => simp
-  | sessionsOff => simp
-  | stateful =>
-    rcases hs hm with ⟨s, rfl, hl⟩ | ⟨rfl, rfl⟩
-    · simp [hl]
-    · simp
-
 /-- The three servers emit the same messages: for every registry, every well-formed envelope `o` whose numbers Go can
     hold (`goDecodeFields o = some _`), every common method, every Streamable configuration `c` (mode, POST-SSE), every
     `Accept` header and every session the request is accepted in. -/
